@@ -76,7 +76,7 @@ func (p *FunctionBuilder) CreateFunction(m *bmodel.MethodEntry) (*gmodel.Functio
 		}
 	}
 	if !util.IsStructType(util.DerefPtr(src.Type())) {
-		return nil, logger.Errorf("%v: src type should be a struct but %v", p.fset.Position(dst.Pos()), src.Type().Underlying().String())
+		return nil, logger.Errorf("%v: src type should be a struct but %v", p.fset.Position(src.Pos()), src.Type().Underlying().String())
 	}
 	if !util.IsStructType(util.DerefPtr(dst.Type())) {
 		return nil, logger.Errorf("%v: dst type should be a struct but %v", p.fset.Position(dst.Pos()), dst.Type().Underlying().String())
